@@ -128,8 +128,13 @@ def _laws(x, e, d, de, ed, case):
                 raise Violation("break_bytes_preserved", case, n, y.count(b), f"{name}: count of {b:#04x}")
 
 
+class _Buffer(bytearray):
+    """Every bytearray is a bytearray: callers' own subclasses (a pooled buffer, a packet body) included."""
+
+
 def _apply(f, x, case, name):
-    buf = bytearray(x)
+    # every third call hands over an instance of a bytearray subclass
+    buf = _Buffer(x) if (len(x) + (x[-1] if x else 0)) % 3 == 0 else bytearray(x)
     # an in-place transform works on buffers other code holds views of (a recv_into window, a reader
     # over the packet): every other call is made while a memoryview export of the buffer is alive
     export = memoryview(buf) if (len(x) + (x[0] if x else 0)) % 2 else None
@@ -249,7 +254,7 @@ def run_task(task):
             xs = [bytes((i * 31 + k) % 256 for i in range(n)) for n in (0, 1, 2, 3, 7, 8, 33, 64) for k in (0, 0x22, 0x4F, 0x7E)]
             xs += [bytes([b]) * n for b in (0x50, 0x7E, 0xFF, 0x21) for n in (1, 2, 5)]
             jobs = [{"fn": f, "arg": x.hex()} for x in xs for f in ("encode_string", "decode_string")]
-            for flag in ("-O", "-OO"):
+            for flag in ("-O", "-OO", "-Werror"):
                 got = optrun.run(jobs, flag)
                 for job, g in zip(jobs, got):
                     x = bytes.fromhex(job["arg"])
